@@ -52,6 +52,10 @@ func ruleC02(c *Check) {
 	c.pricingIdentity("C02.6")
 	c.escrowInventory("C02.7")
 	c.startRules("C02")
+	c.handlersAddNoRejection("C02.8", "MsgRespondService")
+	c.contextFieldRules("C02.5", map[string]bool{"counts": true})
+	c.paramSetExact("C02.3")
+	c.fractionValidators("C02.3")
 	c.feeWriters("C02")
 	c.slashTriggerOnly("C02.1")
 	c.schemaPredicate("C02.1", c.typesName("ValidateResponseOutput"), "types.OutputSchema")
@@ -71,6 +75,8 @@ func ruleC06(c *Check) {
 	c.scanOrder("C06.7")
 	c.pricingIdentity("C06.8")
 	c.contextFieldRules("C06", map[string]bool{"state": true})
+	c.pricingTextPairs("C06.2")
+	c.callbackRules("C06")
 }
 
 func ruleC07(c *Check) {
@@ -86,6 +92,7 @@ func ruleC07(c *Check) {
 	c.paramGettersExact("C07.1", "KeyBaseDenom")
 	c.moduleServiceNotSuper("C07.7")
 	c.discountPattern("C07.9")
+	c.tiersOrdered("C07.10")
 	// "never less than one unit of the base denomination": the price routine reads the denomination off the stored base price, which the parser never leaves empty
 	c.priceNonEmpty("C07.8", c.handFuncs("keeper"))
 }
@@ -1302,4 +1309,61 @@ func unitIntervalPattern(pat string) (bool, string) {
 		return false, "the last piece does not force a non-zero last digit: " + last.String()
 	}
 	return true, ""
+}
+
+// tiersOrdered (C07.10): the volume discount is read off a list of tiers that the lookup assumes to be ascending; that
+// assumption is enforced by the pricing validator for every adjacent pair. Decided on the validator's rejecting paths: one
+// of them rejects under "Volume of the tier under a cursor over the WHOLE tier list < Volume of its predecessor", the cursor
+// being a range variable of the list or a counter the engine has bound to positions c ≤ i < len(list) with c ≤ 1 (a bound
+// of len−1, which leaves the last pair unchecked, is not such a cursor).
+func (c *Check) tiersOrdered(rule string) {
+	f := c.mustFn(rule, c.typesName("ValidatePricing"))
+	if f == nil {
+		return
+	}
+	ok := false
+	why := "no rejecting path compares a tier's Volume with its predecessor's under a cursor over the whole list"
+	for _, pa := range c.P.PathsOf(f) {
+		if pa.Exit != ExitRevert {
+			continue
+		}
+		for _, fa := range pa.AllFacts() {
+			if fa.Neg {
+				continue
+			}
+			fa.T.Walk(func(t *Term) bool {
+				if t.Op != "<" || len(t.A) != 2 {
+					return true
+				}
+				l, r := stripConv(t.A[0]), stripConv(t.A[1])
+				if !strings.HasSuffix(l.Op, ".PromotionByVolume.Volume") || !strings.HasSuffix(r.Op, ".PromotionByVolume.Volume") || len(l.A) != 1 || len(r.A) != 1 {
+					return true
+				}
+				cur, prev := stripConv(l.A[0]), stripConv(r.A[0])
+				var list, pos *Term
+				switch {
+				case cur.Op == "elem" && len(cur.A) == 1:
+					list, pos = cur.A[0], mk("key", cur.A[0])
+				case cur.Op == "idx" && len(cur.A) == 2:
+					list, pos = cur.A[0], stripConv(cur.A[1])
+				default:
+					return true
+				}
+				if !strings.HasSuffix(stripConv(list).Op, ".PromotionsByVolume") {
+					return true
+				}
+				whole := (pos.Op == "key" && len(pos.A) == 1 && pos.A[0].Eq(list)) ||
+					(pos.Op == "keyfrom" && len(pos.A) == 2 && pos.A[1].Eq(list) && (pos.A[0].IsAt("#0") || pos.A[0].IsAt("#1")))
+				if !whole {
+					why = "the cursor " + shortTerm(pos) + " does not range over the whole tier list"
+					return true
+				}
+				if prev.Op == "idx" && len(prev.A) == 2 && prev.A[0].Eq(list) && stripConv(prev.A[1]).Eq(mk("-", pos, atom("#1"))) {
+					ok = true
+				}
+				return true
+			})
+		}
+	}
+	c.req(ok, rule, f.Name+"#volume-tiers-ascending", f.Body.Pos(), "the pricing validator rejects a volume tier below its predecessor for every adjacent pair of the list"+condStr(!ok, ": "+why))
 }
